@@ -740,11 +740,11 @@ pub fn gen_main(args: &[String]) -> i32 {
     let mut out = Out { n: 0 };
     match suite {
         "decode" => suite_decode(&mut out, tier, &mut rng, &["slice"]),
-        "decode_readers" => suite_decode(&mut out, tier, &mut rng, &["mon", "deque", "slice"]),
+        "decode_readers" => suite_decode(&mut out, tier, &mut rng, &["all"]),
         "avps" => suite_avps(&mut out, tier, &mut rng, &["slice"]),
-        "avps_readers" => suite_avps(&mut out, tier, &mut rng, &["mon", "deque", "slice"]),
+        "avps_readers" => suite_avps(&mut out, tier, &mut rng, &["all"]),
         "payload" => suite_payload(&mut out, tier, &mut rng, &["slice"]),
-        "payload_readers" => suite_payload(&mut out, tier, &mut rng, &["mon", "deque", "slice"]),
+        "payload_readers" => suite_payload(&mut out, tier, &mut rng, &["all"]),
         other => {
             eprintln!("unknown suite {other}");
             return 2;
